@@ -169,6 +169,10 @@ DAGS["a_dpull_b_c"] = T(["A", "B", "C"], [("A", "B", ["dpull1"]), ("B", "C")], o
 # pull-based component whose FIRST input is delayed and whose second is read directly; consumer listed first
 DAGS["ab_dfix_first_p_c"] = T(["A", "B", "P", "C"], [("A", "P", ["dfix"]), ("B", "P"), ("P", "C")],
                               order=[3, 2, 0, 1])
+# one consumer reading the SAME output of a pull-based component through a delayed and an undelayed link (delayed
+# input first; delay <= steps so that the requests reaching the shared source never go backwards)
+DAGS["a_p_two_links_dfix_b"] = T(["A", "P", "B"], [("A", "P"), ("P", "B", ["dfix"], {"out": "o"}),
+                                                   ("P", "B", [], {"out": "o"})], delays_le_steps=True, offsets=False, order=[2, 1, 0])
 # two links with their own delay-to-pull adapter into one consumer (the adapters' pull histories are per link)
 DAGS["two_dpull_inputs"] = T(["A", "B", "C"], [("A", "C", ["dpull1"]), ("B", "C", ["dpull1"])], order=[2, 0, 1])
 # rings resolved by a delay-to-pull adapter (delay = n steps of the pulling component + extra)
